@@ -457,10 +457,29 @@ def run_pipe(lib, h, variant, ck, case, fns):
       nray = 5
       calls += [('mj_multiRay', (m, d, np.array([0., 0, 2]), orng.randn(nray, 3), None, 1, -1,
                                  np.zeros(nray, dtype=np.int32), np.zeros(nray), None, nray, 100.0))]
+    # stage functions are only valid in pipeline order (doc/computation "Stages"): run them in that order after a
+    # full mj_forward; self-contained entry points and helpers follow in generated order, each group after mj_forward
+    STAGES = ['mj_fwdKinematics', 'mj_kinematics', 'mj_comPos', 'mj_camlight', 'mj_flex', 'mj_tendon', 'mj_crb', 'mj_makeM',
+              'mj_factorM', 'mj_collision', 'mj_makeConstraint', 'mj_island', 'mj_projectConstraint', 'mj_transmission',
+              'mj_sensorPos', 'mj_energyPos', 'mj_fwdVelocity', 'mj_comVel', 'mj_passive', 'mj_referenceConstraint',
+              'mj_sensorVel', 'mj_energyVel', 'mj_subtreeVel', 'mj_fwdActuation', 'mj_fwdAcceleration',
+              'mj_fwdConstraint', 'mj_sensorAcc', 'mj_rnePostConstraint']
+    GROUPS = [['mj_step'], ['mj_step1', 'mj_step2'], ['mj_forward'], ['mj_inverse'],
+              ['mj_forward', 'mj_invPosition', 'mj_invVelocity', 'mj_invConstraint'], ['mj_forward', 'mj_Euler'],
+              ['mj_forward', 'mj_implicit'], ['mj_forward', 'mj_compareFwdInv'],
+              ['mj_fwdPosition', 'mj_fwdVelocity', 'mj_fwdActuation', 'mj_fwdAcceleration', 'mj_fwdConstraint']]
+    known = set(STAGES) | set(g for G in GROUPS for g in G)
+    for fn in fns:
+      if fn not in known:
+        ck.label('pipe:unplaced:' + fn)
     orng.shuffle(calls)
-    # the staged functions assume the outputs of earlier stages: start from mj_forward, then shuffled singles
-    calls = [('mj_forward', (m, d))] + calls + [('mj_step', (m, d)), ('mj_step1', (m, d)), ('mj_step2', (m, d)),
-                                                 ('mj_inverse', (m, d))]
+    extras = [c for c in calls if c[0] not in fns]
+    groups = list(GROUPS)
+    orng.shuffle(groups)
+    calls = [('mj_forward', (m, d))] + [(fn, (m, d)) for fn in STAGES if fn in fns]
+    for G in groups:
+      calls += [(fn, (m, d)) for fn in G]
+    calls += [('mj_forward', (m, d))] + extras
     ncalls = 0
     E = lib.enums
     for name, args in calls:
